@@ -215,10 +215,23 @@ def run(ctx):
         fmts = [f for f, v in FORMATS.items() if v["level"] == level]
         if not fmts:
             continue
-        rc, out = vlib.sh([binp, "-outdir", d, "-seed", str(ctx.seed), "-n", str(n), "-mal", str(mal),
-                           "-formats", ",".join(fmts)], timeout=1800)
-        if rc != 0:
-            raise RuntimeError("harness failed: " + out[-2000:])
+        # exit code 3 = an Extract call exceeded its deadline: the files of the format in progress are complete up to and
+        # including that case (observed kind "timeout"); run again for the formats that were not reached
+        todo = list(fmts)
+        while todo:
+            rc, out = vlib.sh([binp, "-outdir", d, "-seed", str(ctx.seed), "-n", str(n), "-mal", str(mal),
+                               "-formats", ",".join(todo)], timeout=1800)
+            if rc == 3:
+                m = re.search(r"^timeout format=(\w+)", out, re.M)
+                if not m or m.group(1) not in todo:
+                    raise RuntimeError("harness timeout report not understood: " + out[-800:])
+                ctx.log("harness: Extract exceeded its deadline in format %s; continuing with the remaining formats" % m.group(1))
+                ran = set(re.findall(r"^format=(\w+) cases=", out, re.M))
+                todo = [f for f in todo if f not in ran]
+            elif rc != 0:
+                raise RuntimeError("harness failed: " + out[-2000:])
+            else:
+                todo = []
     all_cases, all_corr, all_spec, all_render = [], [], [], []
     per_format = {}
     seen = set()
